@@ -183,6 +183,8 @@ def lock_decl(f, n):
         return out
     for d in n['decls']:
         t = d['t']
+        if t.startswith('const '):
+            t = t[6:]
         if any(t.startswith(x) for x in LOCK_TYPES) and 'init' in d:
             init = f.nodes[d['init']]
             if init['k'] == 'construct' and init.get('args'):
